@@ -63,6 +63,12 @@ CHECKS = {
             "plus generated hostile and type-directed sources; checks that flags only restrict (equal value, same type) and that every accepted "
             "conversion under no_data_loss / no_explicit_cast keeps the documented promises.",
             "Trusted: vf/checks/c12.py predicates (Fraction arithmetic, strict UTF-8 decoding, ISO date/time parsing, group table from the docs); silent zones listed in ASSUMPTIONS.", "3/C12"),
+    "C14": ("round-trip property-based testing (Hypothesis): generated data classes over the JSON-faithful domain and instances of exactly those types through utype.JSONEncoder, a strict JSON reader and Cls.__from__",
+            "hypothesis",
+            "Exploration: generated (nested) data classes over 12 scalar types, 3 enums, list/set/tuple/dict/Optional/nested classes, with instance values aimed at "
+            "the awkward corners (negative/zero/odd UTC offsets, years < 1000, microsecond and negative durations, -0.0, 1e+-300, 2**53+-1, 15-digit Decimals, "
+            "millisecond times, empty containers); encode, require standard JSON, parse back, compare.",
+            "Trusted: Python json (reader with parse_constant refusing NaN/Infinity), vf/oracle.py:equal.", "3/C14"),
     "C16": ("model-based stateful PBT (Hypothesis RuleBasedStateMachine) of register/use histories against a cache-free reference model",
             "hypothesis",
             "Exploration: random histories of registrations and conversions over a 6-class hierarchy on three registries "
